@@ -13,9 +13,10 @@
    exited run has handed over every record, so NR in end blocks and the whole stdout are the same for every schedule;
    (2) with an early-exit verb upstream the statement is FALSE of the faithful model: `head -n 1 then put -q
    'end{print NR}'` has two exited runs printing different NR (the known finding). *)
-From Coq Require Import List Bool Arith Lia.
+From Coq Require Import List Bool Arith ZArith Lia.
 Import ListNotations.
 From Miller Require Import C04.Model C04.DataFlags C04.EarlyExit C04.EarlyInst C04.Drained.
+Local Open Scope nat_scope.
 
 Section Ctx.
   Context {rec str st : Type}.
@@ -241,3 +242,38 @@ Proof.
   destruct (crun_sched 1 cschedC (cinit (cchain ctx_chain) six)) as [c|] eqn:E0; [|vm_compute in E0; discriminate].
   exists c. split; [reflexivity|]. vm_compute in E0. inversion E0; subst c. vm_compute. auto.
 Qed.
+
+(* ---- correspondence with the real binary (harness): chain, (records, batch size), observed stdout as (tag, value):
+   (0, i) a record i=<i>, (1, p) the line p<NR of the record>, (2, n) the line e<NR in the end block> ---- *)
+Local Open Scope Z_scope.
+Definition cdesc_of (z : Z) : cdesc :=
+  if z =? 0 then CCat else if z =? 1 then CPrintNR else if z =? 2 then CEndNR else if z =? 3 then CTac
+  else CHead (Z.to_nat (z - 10)).
+Local Open Scope nat_scope.
+Definition cmodel_out (ds : list cdesc) (bs : list (list nat)) : list (nat * nat) :=
+  render (length (concat bs)) (flat (seq_chain (cchain ds) (whole (cbatches bs)))).
+Definition pair_eqb (a b : nat * nat) : bool := Nat.eqb (fst a) (fst b) && Nat.eqb (snd a) (snd b).
+Fixpoint plist_eqb (a b : list (nat * nat)) : bool :=
+  match a, b with
+  | [], [] => true
+  | x :: a', y :: b' => pair_eqb x y && plist_eqb a' b'
+  | _, _ => false
+  end.
+(* outcomes the model allows: without an early-exit verb exactly the sequential result with NR = all records
+   (C04_context_determinism_without_early_exit); with one, the sequential result on some truncation of the input at a
+   batch boundary with NR = the records of that truncation *)
+Definition ctx_chk (c : list Z * (Z * Z) * list (Z * Z)) : bool :=
+  let '(ch, (n, b), obs) := c in
+  let ds := map cdesc_of ch in
+  let bs := chunks (S (Z.to_nat n)) (Z.to_nat b) (seq 1 (Z.to_nat n)) in
+  let obs' := map (fun p => (Z.to_nat (fst p), Z.to_nat (snd p))) obs in
+  if forallb no_head ds then plist_eqb obs' (cmodel_out ds bs)
+  else existsb (fun j => plist_eqb obs' (cmodel_out ds (firstn j bs))) (seq 0 (S (length bs))).
+
+Example ctx_chk_examples :
+  ctx_chk ([1; 3; 2], (3, 2), [(1, 1); (1, 2); (1, 3); (2, 3)])%Z = true
+  /\ ctx_chk ([2], (5, 2), [(2, 5)])%Z = true
+  /\ ctx_chk ([2], (5, 2), [(2, 4)])%Z = false
+  /\ ctx_chk ([11; 2], (7, 2), [(2, 4)])%Z = true
+  /\ ctx_chk ([11; 2], (7, 2), [(2, 3)])%Z = false.
+Proof. vm_compute. auto. Qed.
